@@ -5,12 +5,16 @@ package locks
 // directories. After every call every lock the driver knows of is probed.
 
 import (
+	"bytes"
 	"fmt"
+	"io"
 	"math/rand"
+	"sort"
 	"testing"
 
 	"github.com/buildbarn/bb-remote-execution/pkg/filesystem/pool"
 	"github.com/buildbarn/bb-remote-execution/pkg/filesystem/virtual"
+	"github.com/buildbarn/bb-storage/pkg/clock"
 	"github.com/buildbarn/bb-storage/pkg/filesystem"
 	"github.com/buildbarn/bb-storage/pkg/filesystem/path"
 
@@ -237,6 +241,14 @@ type op struct {
 	call    string
 	variant string
 	f       func() string
+}
+
+// object is the component of the outcome class of a call.
+func (o op) object() string {
+	if o.call == "ResolveHandle" {
+		return "handle"
+	}
+	return "dir"
 }
 
 // singleOps lists the calls that take one directory and one name.
@@ -500,7 +512,102 @@ func (e *env) singleOps(w virtual.PrepopulatedDirectory, nm string) []op {
 			return st(s)
 		}},
 	)
+	ops = append(ops, e.resolveOps(w, name)...)
 	return ops
+}
+
+// fileHandleOf returns the NFS file handle of a node.
+func fileHandleOf(get func(mask virtual.AttributesMask, out *virtual.Attributes)) []byte {
+	var out virtual.Attributes
+	get(virtual.AttributesMaskFileHandle, &out)
+	return append([]byte(nil), out.GetFileHandle()...)
+}
+
+// resolveOps lists the calls of NFSStatefulHandleAllocator.ResolveHandle,
+// one per return path: directory, stateful leaf, stateless leaf, handle
+// of a resolvable allocator (resolver succeeds / fails), stale handles
+// (removed file, released directory, unknown inode) and a short handle.
+// They need the NFS handle allocator.
+func (e *env) resolveOps(w virtual.PrepopulatedDirectory, name path.Component) []op {
+	resolve := func(variant string, handle func() []byte) op {
+		return op{call: "ResolveHandle", variant: variant, f: func() string {
+			if e.nfsAllocator == nil {
+				panic("ResolveHandle needs the NFS handle allocator")
+			}
+			h := handle()
+			c, s := e.nfsAllocator.ResolveHandle(bytes.NewReader(h))
+			if s == virtual.StatusOK {
+				if d, l := c.GetPair(); d != nil {
+					e.addDirectory(d)
+				} else {
+					e.addLeaf(l)
+				}
+			}
+			return st(s)
+		}}
+	}
+	return []op{
+		resolve("of-receiver", func() []byte {
+			return fileHandleOf(func(m virtual.AttributesMask, out *virtual.Attributes) { w.VirtualGetAttributes(ctxBG, m, out) })
+		}),
+		resolve("of-child", func() []byte {
+			var out virtual.Attributes
+			if _, s := w.VirtualLookup(ctxBG, name, virtual.AttributesMaskFileHandle, &out); s != virtual.StatusOK {
+				return []byte{1, 2, 3, 4, 5, 6, 7, 8, 9}
+			}
+			return append([]byte(nil), out.GetFileHandle()...)
+		}),
+		resolve("of-symlink", func() []byte {
+			l := e.newSymlink()
+			return fileHandleOf(func(m virtual.AttributesMask, out *virtual.Attributes) { l.VirtualGetAttributes(ctxBG, m, out) })
+		}),
+		resolve("of-removed-file", func() []byte {
+			l := e.newLeafFile()
+			h := fileHandleOf(func(m virtual.AttributesMask, out *virtual.Attributes) { l.VirtualGetAttributes(ctxBG, m, out) })
+			l.Unlink()
+			return h
+		}),
+		resolve("of-removed-directory", func() []byte {
+			// (a directory of its own file system: the root of this one
+			// may have been removed by an earlier call)
+			other := virtual.NewInMemoryPrepopulatedDirectory(
+				e.fileAllocator, e.symlinkFactory, e.errorLogger, e.handleAllocator,
+				sort.Sort, hiddenMatcher, clock.SystemClock, virtual.CaseSensitiveComponentNormalizer,
+				defaultAttributesSetter, e.nattrFactory)
+			e.addDir(other)
+			d := e.mkdir(other, "resolve-tmp")
+			h := fileHandleOf(func(m virtual.AttributesMask, out *virtual.Attributes) { d.VirtualGetAttributes(ctxBG, m, out) })
+			mustErr(other.Remove(comp("resolve-tmp")), "remove resolve-tmp")
+			return h
+		}),
+		resolve("unknown-inode", func() []byte { return []byte{0xde, 0xad, 0xbe, 0xef, 1, 2, 3, 4} }),
+		resolve("short", func() []byte { return []byte{1, 2, 3} }),
+		resolve("resolvable;resolver-ok", func() []byte { return e.resolvableHandle(false) }),
+		resolve("resolvable;resolver-fails", func() []byte { return e.resolvableHandle(true) }),
+	}
+}
+
+type handleIdentifier []byte
+
+func (h handleIdentifier) WriteTo(w io.Writer) (int64, error) {
+	n, err := w.Write(h)
+	return int64(n), err
+}
+
+// resolvableHandle returns the file handle of a leaf of a resolvable
+// handle allocator whose resolver succeeds or fails.
+func (e *env) resolvableHandle(fail bool) []byte {
+	if e.resolvable == nil {
+		e.resolvable = e.nfsAllocator.New().AsResolvableAllocator(func(r io.ByteReader) (virtual.DirectoryChild, virtual.Status) {
+			if e.resolverFails.Load() {
+				return virtual.DirectoryChild{}, virtual.StatusErrStale
+			}
+			return virtual.DirectoryChild{}.FromLeaf(plainLeaf{}), virtual.StatusOK
+		})
+	}
+	e.resolverFails.Store(fail)
+	l := e.resolvable.New(handleIdentifier("id")).AsLeaf(plainLeaf{})
+	return fileHandleOf(func(m virtual.AttributesMask, out *virtual.Attributes) { l.VirtualGetAttributes(ctxBG, m, out) })
 }
 
 func (e *env) registerReported(r *reporter) {
@@ -571,31 +678,57 @@ func outcomeKey(o op, receiver, nameClass string) string {
 	return fmt.Sprintf("%son=%s;name=%s", v, receiver, nameClass)
 }
 
+// fuseSweepCalls are the calls of the directory that end in
+// StatefulDirectoryHandle.NotifyRemoval(), the only place where the FUSE
+// handle allocator takes its lock.
+var fuseSweepCalls = map[string]bool{
+	"Remove": true, "RemoveAll": true, "RemoveAllChildren": true, "CreateChildren": true,
+	"CreateAndEnterPrepopulatedDirectory": true, "FilterChildren": true,
+}
+
 func TestDirSweep(t *testing.T) {
 	tr := common.NewTrace("trace.ndjson")
 	defer tr.Close()
 	trace := 0
 	calls := 0
 	// Single-directory calls.
-	nOps := len(newEnv(tr).singleOps(nil, "x"))
-	for _, rc := range receiverClasses {
-		for _, nc := range nameClasses {
-			for i := 0; i < nOps && hangCount.Load() < maxHangs; i++ {
-				e := newEnv(tr)
-				w := e.makeDir(rc, "w").(virtual.PrepopulatedDirectory)
-				o := e.singleOps(w, nc.name)[i]
-				tr.Emit(common.Ev{"ev": "reset", "trace": trace, "mode": "sweep"})
-				trace++
-				calls++
-				if !e.record("dir", o.call, outcomeKey(o, rc, nc.class), o.f) {
-					continue
+	template := newEnv(tr).singleOps(nil, "x")
+	nOps := len(template)
+	// Once with the NFS handle allocator (all calls), once with the FUSE
+	// handle allocator (the calls that reach its removal notification).
+	for _, fuse := range []bool{false, true} {
+		for _, rc := range receiverClasses {
+			for _, nc := range nameClasses {
+				for i := 0; i < nOps && hangCount.Load() < maxHangs; i++ {
+					if fuse && !fuseSweepCalls[template[i].call] {
+						continue
+					}
+					e := newEnvWith(tr, envOptions{fuse: fuse})
+					tr.Emit(common.Ev{"ev": "reset", "trace": trace, "mode": "sweep", "fuse": fuse})
+					trace++
+					w := e.makeDir(rc, "w").(virtual.PrepopulatedDirectory)
+					// The calls that built the fixture (removals among
+					// them) are calls too: the lock of the FUSE handle
+					// allocator is probed before the call under test.
+					if fuse && !e.record("dir", "fixture", "on="+rc, func() string { return "ok" }) {
+						continue
+					}
+					o := e.singleOps(w, nc.name)[i]
+					calls++
+					if !e.record(o.object(), o.call, outcomeKey(o, rc, nc.class), o.f) {
+						continue
+					}
+					// A second, different call on the same objects: a lock
+					// that leaked on an object the probes do not know
+					// would show up as a hang.
+					j := (i + 7) % nOps
+					for fuse && !fuseSweepCalls[template[j].call] {
+						j = (j + 1) % nOps
+					}
+					o2 := e.singleOps(w, nc.name)[j]
+					e.record(o2.object(), o2.call, outcomeKey(o2, rc, nc.class)+";second", o2.f)
+					calls++
 				}
-				// A second, different call on the same objects: a lock
-				// that leaked on an object the probes do not know
-				// would show up as a hang.
-				o2 := e.singleOps(w, nc.name)[(i+7)%nOps]
-				e.record("dir", o2.call, outcomeKey(o2, rc, nc.class)+";second", o2.f)
-				calls++
 			}
 		}
 	}
@@ -700,8 +833,9 @@ func TestDirRandom(t *testing.T) {
 	calls := 0
 	for i := 0; i < traces && hangCount.Load() < maxHangs; i++ {
 		rng := common.Rand(int64(5000 + i))
-		e := newEnv(tr)
-		tr.Emit(common.Ev{"ev": "reset", "trace": i, "mode": "random"})
+		fuse := i%3 == 2
+		e := newEnvWith(tr, envOptions{fuse: fuse})
+		tr.Emit(common.Ev{"ev": "reset", "trace": i, "mode": "random", "fuse": fuse})
 		e.populate(e.root)
 		for _, c := range []string{"live", "lazy", "lazyfail", "deleted", "purged", "nattr"} {
 			if rng.Intn(3) > 0 {
@@ -709,6 +843,9 @@ func TestDirRandom(t *testing.T) {
 			}
 		}
 		foreign := e.makeDir("foreign", "")
+		if fuse && !e.record("dir", "fixture", "random", func() string { return "ok" }) {
+			continue
+		}
 		for j := 0; j < steps; j++ {
 			w := e.randomDir(rng)
 			nm := randomNames[rng.Intn(len(randomNames))]
@@ -735,10 +872,13 @@ func TestDirRandom(t *testing.T) {
 			} else {
 				ops := e.singleOps(w, nm)
 				o = ops[rng.Intn(len(ops))]
+				if fuse && o.call == "ResolveHandle" {
+					continue
+				}
 				o.variant = outcomeKey(o, dirClassOf(w), nameClassOf(w, nm))
 			}
 			calls++
-			if !e.record("dir", o.call, o.variant, o.f) {
+			if !e.record(o.object(), o.call, o.variant, o.f) {
 				break
 			}
 		}
